@@ -234,14 +234,99 @@ func (c *simCtx) isSubjectList(v ssa.Value) bool {
 
 // numeric expression over the subject: returns interval of the expression
 func (c *simCtx) regionOf(v ssa.Value) (float64, float64, bool) {
+	// signed -> unsigned conversion (resolve would strip it): a negative value becomes a huge one
+	if cv, ok := v.(*ssa.Convert); ok {
+		if bt, isB := cv.Type().Underlying().(*types.Basic); isB && bt.Info()&types.IsUnsigned != 0 && isSignedInt(cv.X.Type()) {
+			lo, hi, ok := c.regionOf(cv.X)
+			switch {
+			case !ok:
+				return 0, 0, false
+			case hi < 0:
+				return math.Pow(2, 63), math.Pow(2, 64), true
+			case lo >= 0:
+				return lo, hi, true
+			}
+			return 0, 0, false
+		}
+	}
 	v = resolve(v)
 	if c.isSubject(v) {
 		return c.sc.Lo, c.sc.Hi, true
 	}
 	switch x := v.(type) {
 	case *ssa.Convert:
-		return c.regionOf(x.X)
+		lo, hi, ok := c.regionOf(x.X)
+		if !ok {
+			return 0, 0, false
+		}
+		// signed -> unsigned: a negative value becomes a huge one
+		if bt, isB := x.Type().Underlying().(*types.Basic); isB && bt.Info()&types.IsUnsigned != 0 {
+			if st, isS := x.X.Type().Underlying().(*types.Basic); isS && st.Info()&types.IsInteger != 0 && st.Info()&types.IsUnsigned == 0 {
+				switch {
+				case hi < 0:
+					return math.Pow(2, 63), math.Pow(2, 64), true
+				case lo >= 0:
+					return lo, hi, true
+				}
+				return 0, 0, false
+			}
+		}
+		return lo, hi, true
+	case *ssa.BinOp:
+		if x.Op == token.ADD || x.Op == token.SUB {
+			if k, isK := c.constUnder(x.Y); isK {
+				if lo, hi, ok := c.regionOf(x.X); ok {
+					if x.Op == token.SUB {
+						k = -k
+					}
+					return lo + k, hi + k, true
+				}
+			}
+			if k, isK := c.constUnder(x.X); isK && x.Op == token.ADD {
+				if lo, hi, ok := c.regionOf(x.Y); ok {
+					return lo + k, hi + k, true
+				}
+			}
+		}
 	case *ssa.Call:
+		if bn := builtinName(x); bn == "min" || bn == "max" {
+			// the subject bounds min from above and max from below whatever the other operands are
+			lo, hi := math.Inf(-1), math.Inf(1)
+			any := false
+			allKnown := true
+			for _, a := range x.Call.Args {
+				alo, ahi, ok := c.regionOf(a)
+				if !ok {
+					if k, isK := c.constUnder(a); isK {
+						alo, ahi, ok = k, k, true
+					}
+				}
+				if !ok {
+					allKnown = false
+					continue
+				}
+				if !any {
+					lo, hi, any = alo, ahi, true
+					continue
+				}
+				if bn == "min" {
+					lo, hi = math.Min(lo, alo), math.Min(hi, ahi)
+				} else {
+					lo, hi = math.Max(lo, alo), math.Max(hi, ahi)
+				}
+			}
+			if !any {
+				return 0, 0, false
+			}
+			if !allKnown {
+				if bn == "min" {
+					lo = math.Inf(-1)
+				} else {
+					hi = math.Inf(1)
+				}
+			}
+			return lo, hi, true
+		}
 		if calleeIs(x, "math", "Abs") {
 			lo, hi, ok := c.regionOf(x.Call.Args[0])
 			if !ok {
